@@ -608,6 +608,7 @@ func (sb *sandbox) readOut() (map[string][]byte, bool, error) {
 	}
 	files := map[string][]byte{}
 	var bad error
+	var dirs []string
 	err := filepath.WalkDir(sb.out, func(p string, d fs.DirEntry, err error) error {
 		if err != nil {
 			return err
@@ -620,6 +621,9 @@ func (sb *sandbox) readOut() (map[string][]byte, bool, error) {
 		rel = filepath.ToSlash(rel)
 		switch {
 		case info.Mode().IsDir():
+			if rel != "." {
+				dirs = append(dirs, rel)
+			}
 		case info.Mode().IsRegular():
 			b, err := os.ReadFile(p)
 			if err != nil {
@@ -635,6 +639,20 @@ func (sb *sandbox) readOut() (map[string][]byte, bool, error) {
 	})
 	if err != nil {
 		return nil, true, err
+	}
+	// a directory that is not the parent of any file is content of its own (an archive extended with
+	// directory entries leaves such directories behind): it is reported as an entry "<dir>/"
+	for _, d := range dirs {
+		implied := false
+		for f := range files {
+			if strings.HasPrefix(f, d+"/") {
+				implied = true
+				break
+			}
+		}
+		if !implied {
+			files[d+"/"] = []byte("<directory>")
+		}
 	}
 	return files, true, bad
 }
